@@ -171,6 +171,24 @@ def replay_file(mod, path, quiet=False, keep_log=False):
     return 0, res
 
 
+def _watchdog(seconds, what):
+    """the driver itself must never hang: after `seconds` print the stacks and leave with status 2
+    (a time-out is a harness error, never a verdict)"""
+    import threading
+
+    def fire():
+        try:
+            sys.stdout.write("HARNESS-ERROR watchdog: %s still running after %ds\n" % (what, seconds))
+            sys.stdout.flush()
+            faulthandler.dump_traceback(all_threads=True)
+        finally:
+            os._exit(2)
+    t = threading.Timer(seconds, fire)
+    t.daemon = True
+    t.start()
+    return t
+
+
 def main(mod, argv=None):
     ap = argparse.ArgumentParser(prog="check " + mod.PROP)
     ap.add_argument("--tier", default=os.environ.get("VERIF_TIER", "quick"), choices=("quick", "thorough"))
@@ -189,6 +207,7 @@ def main(mod, argv=None):
     t_start = time.time()
 
     if a.replay:
+        _watchdog(300, "replay")
         code, res = replay_file(mod, a.replay, a.quiet, keep_log=a.log)
         if a.log:
             for line in res.get("log", []):
@@ -213,6 +232,7 @@ def main(mod, argv=None):
     known = load_findings(mod.PROP)
     nruns = a.runs if a.runs is not None else mod.COUNTS[a.tier]
     max_s = a.max_seconds if a.max_seconds else mod.MAX_SECONDS[a.tier]
+    _watchdog(int(max_s) + 1500, "check %s --tier %s" % (mod.PROP, a.tier))
     deadline_wall = t_start + max_s
     jobs = max(1, a.jobs)
     harness_errors = []
